@@ -95,7 +95,9 @@ func main() {
 	out := flag.String("out", "-", "output file")
 	full := flag.Bool("fullapp", false, "execute every history on the shortcut path and through the application (signed transactions, FinalizeBlock) and compare")
 	det := flag.Int("det", 1, "run every history this many times in-process and report differing logs (NONDET lines)")
+	sim := flag.Bool("sim", false, "execute every message first on a discarded branch of the state, as a node does in CheckTx and for gas estimation; the log must be the same as without")
 	flag.Parse()
+	simulateFirst = *sim
 
 	var f *os.File = os.Stdout
 	if *out != "-" {
